@@ -85,21 +85,23 @@ Print Assumptions C06_nonvacuous_answers.
 Print Assumptions C06_double_visit_incoherent.
 
 (** ---- Core fragment, NO hypothesis on an op log (bridge to the indexer model of group scope) ----
-    `_partial`: single-file workspaces; the single-visit condition is the decidable hypothesis [log_fresh] on the
-    position log of the indexer MODEL's final state (evaluated by the bridge driver on every generated Core
-    workspace; not yet derived from "the identifier ranges of the AST are pairwise distinct").
-    For EVERY single-file Core workspace whose identifiers are identifier tokens carrying their text ([stmt_ok]: the
-    output condition of the tree -> CoreAst bridge, proved for the model pipeline in coq/proofs/BridgeSymbol.v by
-    builder "bridge"), the symbol-map state [abs (index_ws w)] that the indexer model (Indexer.v) stands for satisfies
-    the four clauses of the property at every position.  Name agreement, token-ness and allocation of every id
-    (the side conditions op_coh_ok / op_ids_ok that were CHECKED on op logs) are PROVED here from the structure of
-    the program: proofs/IndexerCoh.v, one Hoare-style traversal of Indexer.v carrying the invariant
-    "every lookup structure maps a name to a symbol with that name whose definition is a keyed identifier token". *)
+    `_partial`: the single-visit condition is the decidable hypothesis [log_fresh] on the position log of the indexer
+    MODEL's final state (evaluated by the bridge driver on every generated Core workspace; not yet derived from "the
+    identifier ranges of the AST are pairwise distinct").
+    For EVERY Core workspace (any number of files, includes) whose identifiers are identifier tokens OF THEIR FILE carrying
+    their text ([stmt_ok toks g] for the statements of file g: the output condition of the tree -> CoreAst bridge, proved
+    for the model pipeline in coq/proofs/BridgeSymbol.v by builder "bridge"), the symbol-map state [abs (index_ws w)] that
+    the indexer model (Indexer.v) stands for satisfies the four clauses of the property at every position of every file.
+    Name agreement, token-ness and allocation of every id (the side conditions op_coh_ok / op_ids_ok that were CHECKED on
+    op logs) are PROVED here from the structure of the program: proofs/IndexerCoh.v, one Hoare-style traversal of Indexer.v
+    carrying the invariant "every lookup structure maps a name to a symbol with that name whose definition is a keyed
+    identifier token", with the include stack (current file = file of the statements being indexed) in the triple. *)
 From TG.Model Require CoreAst Scope Indexer IndexerOps.
 From TG.Proofs Require IndexerCoh.
-Theorem C06_coherent_core_partial : forall toks (root : list CoreAst.stmt) perrs,
-  toks_sorted toks = true -> Forall (IndexerCoh.stmt_ok toks) root ->
-  let s := Indexer.index_ws (CoreAst.mkWs [root] perrs) in
+Theorem C06_coherent_core_partial : forall toks (w : CoreAst.workspace),
+  toks_sorted toks = true ->
+  (forall g body, Scope.nthN (CoreAst.ws_files w) g = Some body -> Forall (IndexerCoh.stmt_ok toks g) body) ->
+  let s := Indexer.index_ws w in
   IndexerOps.log_fresh s = true ->
   forall f p t, goto_definition (IndexerOps.abs s) f p = SOk (Some t) ->
   exists c n rs,
@@ -114,10 +116,44 @@ Proof. exact IndexerCoh.c06_coherent_core. Qed.
 
 (** non-vacuity: `class A { int x; } class B : A { let x = 1; }` satisfies all hypotheses (incl. the `let` pair) *)
 Theorem C06_core_nonvacuous :
-  toks_sorted IndexerCoh.core_ex_toks = true /\ Forall (IndexerCoh.stmt_ok IndexerCoh.core_ex_toks) IndexerCoh.core_ex_root /\
+  toks_sorted IndexerCoh.core_ex_toks = true /\ Forall (IndexerCoh.stmt_ok IndexerCoh.core_ex_toks 0) IndexerCoh.core_ex_root /\
   IndexerOps.log_fresh (Indexer.index_ws (CoreAst.mkWs [IndexerCoh.core_ex_root] [])) = true /\
   goto_definition (IndexerOps.abs (Indexer.index_ws (CoreAst.mkWs [IndexerCoh.core_ex_root] []))) 0 37 = SOk (Some (mkFR 0 14 15)) /\
   references (IndexerOps.abs (Indexer.index_ws (CoreAst.mkWs [IndexerCoh.core_ex_root] []))) 0 14 = SOk (Some [mkFR 0 37 38]).
 Proof. exact IndexerCoh.core_ex_hyps. Qed.
 Print Assumptions C06_coherent_core_partial.
 Print Assumptions C06_core_nonvacuous.
+
+(** ---- composed with the model pipeline of builder "bridge" (Pipeline.analyze: texts -> modelled parser -> trees ->
+    CoreAst): for EVERY analysis that yields a Core workspace, with [toks] = the identifier tokens of its trees
+    (BridgeToks.ws_id_toks), the four clauses hold at every position of every file -- the only remaining hypothesis is the
+    decidable [log_fresh] (no hypothesis on the AST, none on an op log).
+    Trusted links to the Rust code: Indexer.v + IndexerOps.abs = index.rs + symbol_map.rs (CHECKED state equality, evidence
+    bridge_to_indexer_model) and harness coreast = AstToCore.core_of_tree, parser model = syntax crate (bridge's / parser
+    group's checked ties). *)
+From TG.Model Require AstToCore Pipeline BridgeToks.
+From TG.Proofs Require BridgeSymbol BridgeText IndexerPipeline.
+Theorem C06_pipeline_core_partial : forall pfuel cfuel files root a w,
+  Pipeline.analyze pfuel cfuel files root = Some a -> Pipeline.an_core a = AstToCore.Ok w ->
+  let toks := BridgeToks.ws_id_toks (BridgeSymbol.an_trees a) in
+  let s := Indexer.index_ws w in
+  IndexerOps.log_fresh s = true ->
+  forall f p t, goto_definition (IndexerOps.abs s) f p = SOk (Some t) ->
+  exists c n rs,
+    tok_name toks c = Some n /\ (fr_file c = f /\ fr_lo c <= p /\ p < fr_hi c) /\
+    (forall c' n', In (c', n') toks -> (fr_file c' = f /\ fr_lo c' <= p /\ p < fr_hi c') -> c' = c) /\
+    tok_name toks t = Some n /\
+    references (IndexerOps.abs s) f p = SOk (Some rs) /\
+    (forall r, In r rs -> tok_name toks r = Some n /\
+       forall q, fr_lo r <= q -> q < fr_hi r -> goto_definition (IndexerOps.abs s) (fr_file r) q = SOk (Some t)) /\
+    (t = c \/ In c rs).
+Proof. exact IndexerPipeline.c06_pipeline_core. Qed.
+
+Theorem C06_pipeline_nonvacuous :
+  exists a w, Pipeline.analyze 200 10 [(IndexerPipeline.pipe_ex_path, BridgeText.bridge_example_text)] IndexerPipeline.pipe_ex_path = Some a /\
+    Pipeline.an_core a = AstToCore.Ok w /\
+    IndexerOps.log_fresh (Indexer.index_ws w) = true /\
+    goto_definition (IndexerOps.abs (Indexer.index_ws w)) 0 58 = SOk (Some (mkFR 0 49 50)).
+Proof. exact IndexerPipeline.c06_pipeline_nonvacuous. Qed.
+Print Assumptions C06_pipeline_core_partial.
+Print Assumptions C06_pipeline_nonvacuous.
